@@ -1,4 +1,5 @@
 import Driver.C04
+import Driver.C01_Opnd
 import Driver.C19L
 import Driver.C10R
 import Driver.C09D
@@ -40,6 +41,7 @@ partial def loop (h : IO.FS.Stream) (out : IO.FS.Stream) (f : String → String)
   loop h out f
 
 def modes : List (String × (String → String)) := [
+  ("c01o", C01O.handle),
   ("c19l", C19L.handle),
   ("c10r", C10R.handle),
   ("c09s", C09D.handleSw),
